@@ -118,6 +118,11 @@ pub struct Case {
     /// the main shell traps SIGUSR1 (`trap : USR1`); children send it (`Kp`)
     #[serde(default)]
     pub sigpar: bool,
+    /// the main shell has a command trap for TERM and HUP (`trap : TERM HUP`):
+    /// every child starts with these signals blocked and caught until it has
+    /// reset the traps, so a signal sent to a young child stays pending
+    #[serde(default)]
+    pub trapterm: bool,
 }
 
 // ---------------------------------------------------------------- generation
@@ -420,11 +425,13 @@ pub fn generate(rng: &mut Rng, tier: Tier) -> Case {
     }
     let pipefail = g.rng.below(3) == 0;
     let dash_c = g.rng.bool();
+    let trapterm = !sigpar && g.rng.below(3) == 0;
     Case {
         nodes,
         pipefail,
         dash_c,
         sigpar,
+        trapterm,
     }
 }
 
@@ -558,6 +565,9 @@ pub fn render_case(c: &Case) -> String {
     }
     if c.sigpar {
         s.push_str("trap : USR1\n");
+    }
+    if c.trapterm {
+        s.push_str("trap : TERM HUP\n");
     }
     render_block(&c.nodes, &mut s, "\n");
     // whatever the program did, the shell ends with the descriptors it began
@@ -1068,6 +1078,19 @@ pub fn check_run_opt(c: &Case, exp: &Expect, obs: &Observed, truth: bool) -> Opt
     let mut reaped: BTreeMap<i64, u32> = BTreeMap::new();
     // a process must not do anything after it exited or was killed
     let mut dead: BTreeMap<i32, (u64, String)> = BTreeMap::new();
+    let final_status: BTreeMap<i32, i64> = o
+        .procs
+        .iter()
+        .filter_map(|p| {
+            let (kind, n) = p.state.split_once(':')?;
+            let n: i64 = n.parse().ok()?;
+            match kind {
+                "exited" => Some((p.pid, n)),
+                "signaled" => Some((p.pid, 384 + n)),
+                _ => None,
+            }
+        })
+        .collect();
     for e in &obs.history {
         if let Some((seq, how)) = dead.get(&e.pid)
             && matches!(e.kind.as_str(), "read" | "write" | "fork" | "kill" | "wait" | "exit" | "mark")
@@ -1085,8 +1108,16 @@ pub fn check_run_opt(c: &Case, exp: &Expect, obs: &Observed, truth: bool) -> Opt
             dead.insert(e.pid, (e.seq, format!("exited with {}", e.a)));
         }
         if e.kind == "kill" && e.a > 0 && matches!(e.b, 1 | 9 | 15) {
-            dead.insert(e.a as i32, (e.seq, format!("was killed by signal {} sent by pid {}", e.b, e.pid)));
-            exits.entry(e.a).or_insert((e.seq, 384 + e.b));
+            if e.b == 9 || !c.trapterm {
+                dead.insert(e.a as i32, (e.seq, format!("was killed by signal {} sent by pid {}", e.b, e.pid)));
+                exits.entry(e.a).or_insert((e.seq, 384 + e.b));
+            } else if let Some(st) = final_status.get(&(e.a as i32)) {
+                // TERM/HUP may stay pending in a young child that still has the
+                // parent's trap (blocked): the signal takes effect later, or an
+                // injected KILL gets there first. The process table says how
+                // the process really ended; the kill is the earliest instant.
+                exits.entry(e.a).or_insert((e.seq, *st));
+            }
         }
         match e.kind.as_str() {
             "exit" => {
@@ -1473,6 +1504,7 @@ impl Prop for C13 {
                     pipefail: c.pipefail,
                     dash_c: c.dash_c,
                     sigpar: c.sigpar,
+                    trapterm: c.trapterm,
                 })
                 .unwrap(),
             );
@@ -1484,6 +1516,7 @@ impl Prop for C13 {
                     pipefail: false,
                     dash_c: c.dash_c,
                     sigpar: c.sigpar,
+                    trapterm: c.trapterm,
                 })
                 .unwrap(),
             );
